@@ -108,8 +108,16 @@ impl Rng {
         let lo_bits = 64 - lo.leading_zeros() as u64;
         let hi_bits = 64 - hi.leading_zeros() as u64;
         let bits = lo_bits + self.below_u64(hi_bits - lo_bits + 1);
-        let base = if bits >= 64 { u64::MAX } else { (1u64 << bits) - 1 };
-        let floor = if bits <= 1 { 0 } else { (1u64 << (bits - 1)) - 1 };
+        let base = if bits >= 64 {
+            u64::MAX
+        } else {
+            (1u64 << bits) - 1
+        };
+        let floor = if bits <= 1 {
+            0
+        } else {
+            (1u64 << (bits - 1)) - 1
+        };
         let v = floor + 1 + self.below_u64(base - floor);
         v.clamp(lo, hi)
     }
